@@ -10,9 +10,13 @@
    MACs, IPv4 addresses and circuit-ids are numbers (the harness interns them); 0 is "no
    circuit-id" and the unspecified address 0.0.0.0.  Time is in seconds.
 
-   Ghost marker 0201: the lease found through the circuit-ID index belongs to a different MAC and
-   is used as "the client's existing lease" (OFFER in handleDiscover, ACK + second lease in
-   handleRequest). *)
+   Time: a model instant t stands for a clock reading in (t, t+1): the server reads a strictly
+   increasing clock, so a reading never equals an expiry computed from an earlier reading;
+   time.Now().Before(exp) is [now <? exp] and now.After(exp) is [exp <=? now].
+
+   Ghost marker 0201: the MAC has no lease, and a lease object found through the circuit-ID index
+   (another MAC's lease, or a stale object no longer in the lease table) is used as "the client's
+   existing lease" (OFFER in handleDiscover, ACK + a second lease entry in handleRequest). *)
 From Coq Require Import NArith List Bool.
 Import ListNotations.
 Local Open Scope N_scope.
@@ -105,7 +109,7 @@ Definition existing (s : state4) (m : msg4) : option (lease4 * bool) :=
   end.
 
 Definition mark (m : msg4) (e : lease4 * bool) : list N :=
-  if snd e && negb (l_mac (fst e) =? m_mac m) then [201] else [].
+  if snd e then [201] else [].
 
 (* Pool.Release(ip): the (unique) holder of ip loses it, ip goes to the end of the free list *)
 Fixpoint drop_first_val (ip : N) (a : list (N * N)) : option (list (N * N)) :=
@@ -146,7 +150,7 @@ Definition drop_lease (s : state4) (mac : N) (l : lease4) : state4 :=
 
 Definition expire_one (s : state4) (mac : N) : state4 :=
   match alookup mac (leases s) with
-  | Some l => if l_exp l <? now s then pool_release (drop_lease s mac l) (l_ip l) else s
+  | Some l => if l_exp l <=? now s then pool_release (drop_lease s mac l) (l_ip l) else s
   | None => s
   end.
 
